@@ -468,6 +468,16 @@ _so = {}
 def build_so():
     if "so" in _so:
         return _so["so"]
+    # worker processes are killed at their deadline, so an atexit hook does not always run: directories
+    # left behind by earlier runs are removed here once they are older than an hour
+    try:
+        import glob
+
+        for old in glob.glob(os.path.join(tempfile.gettempdir(), "llvm2smt_so_*")):
+            if time.time() - os.path.getmtime(old) > 3600:
+                shutil.rmtree(old, ignore_errors=True)
+    except OSError:
+        pass
     d = tempfile.mkdtemp(prefix="llvm2smt_so_")
     src = os.path.join(d, "w.c")
     open(src, "w").write(wrapper_source())
